@@ -108,7 +108,18 @@ func TestDriveC17(t *testing.T) {
 				Curves:  []configuration.CurveConfig{{ID: "c17c", Linear: &configuration.LinearCurveConfig{Sensor: "c17s", Min: 40, Max: 80}}},
 				Fans:    []configuration.FanConfig{{ID: "c17fan", Curve: "c17c", HwMon: &sel}},
 			}
-			if r.Intn(2) == 0 {
+			if r.Intn(3) == 0 {
+				// a fan hub: another entry selects the SAME fan (same selector) but names a pwm channel of its own, before
+				// or after the entry under test - entries are bound independently of each other
+				twin := sel
+				twin.PwmChannel = 1 + (sel.PwmChannel+r.Intn(3))%4
+				te := configuration.FanConfig{ID: "c17twin", Curve: "c17c", HwMon: &twin}
+				if r.Intn(2) == 0 {
+					cc.Fans = append([]configuration.FanConfig{te}, cc.Fans...)
+				} else {
+					cc.Fans = append(cc.Fans, te)
+				}
+			} else if r.Intn(2) == 0 {
 				for _, ch := range chips {
 					if len(ch.fans) > 0 {
 						good := configuration.HwMonFanConfig{Platform: ch.name, Index: 1}
@@ -156,7 +167,9 @@ func TestDriveC17(t *testing.T) {
 			if err != nil {
 				res["err"] = true
 				res["msg"] = fmtErr(err)
-				res["named"] = strings.Contains(err.Error(), "c17fan") || strings.Contains(err.Error(), "c17sensor")
+				// (a twin entry has the same selector: when the device does not exist it fails for the same reason, and an
+				// error that names the twin is as clean as one that names the entry under test)
+				res["named"] = strings.Contains(err.Error(), "c17fan") || strings.Contains(err.Error(), "c17sensor") || strings.Contains(err.Error(), "c17twin")
 				return
 			}
 			if isFan {
